@@ -50,7 +50,8 @@ def run_reader(ctx, prop):
         runs.append(["explore", "random", n, s + 20 + i])
         runs.append(["explore", "pct", n, s + 30 + i])
     # scenario = nrec,nadd,nf,ns,lat,fto,expfail
-    for sc in ["1,2,2,1,1,0,0", "2,1,1,2,2,1,0", "1,1,2,0,0,3,1"]:
+    # (lat = 9: an exporter slower than the export timeout; expfail = 2: exporter ForceFlush always fails)
+    for sc in ["1,2,2,1,1,0,0", "2,1,1,2,2,1,0", "1,1,2,0,0,3,1", "1,2,1,1,9,0,0", "1,1,2,1,9,3,0", "1,1,1,1,0,0,2"]:
         runs.append(["explore", "random", n // 2, s + 40, sc])
     runs.append(["explore", "dfs", 3000 if not thorough else 60000, s, "1,1,1,1,0,0,0", 1])
     lines, abnormal = B.explore(ctx, exe, runs)
